@@ -1470,6 +1470,19 @@ def specialise_new_defaults(repo, nz):
                 except Exception:
                     pass
         calls = [c for nm in names for c in sites.get(nm, [])]
+        if fi.name == "__init__" and fi.cls is not None:
+            # `X.__init__(self, ..)` counts only when X is this class, one of its subclasses, or super()
+            subs_ = []
+            for c_ in repo.classes:
+                try:
+                    if c_ is not fi.cls and fi.cls in c_.mro():
+                        subs_.append(c_)
+                except Exception:
+                    pass
+            super_ok = {id(n_) for c_ in subs_ for n_ in ast.walk(c_.node) if isinstance(n_, ast.Call)}
+            calls = [c for c in calls if not (isinstance(c.func, ast.Attribute) and c.func.attr == "__init__") or
+                     ast.unparse(c.func.value).split(".")[-1] in (names - {"__init__"}) or
+                     (ast.unparse(c.func.value).startswith("super(") and id(c) in super_ok)]
         is_method = fi.cls is not None and pos and pos[0].arg in ("self", "cls")
         for kind, i, p_, d_ in reversed(cand):
             simple = isinstance(d_, ast.Constant) or (isinstance(d_, (ast.Name, ast.Attribute)) and _chain_text(d_) is not None) or \
